@@ -74,7 +74,7 @@ def gen_scatter_case(rng, k):
     kl = h["kwargs_lens"]
     kl.setdefault("lambda_ifu", 1.02)
     cfg["lambda_mst_distribution"] = "GAUSSIAN"
-    which = ["ifu", "mst", "los", "ani"][k % 4]
+    which = ["ifu", "mst", "los", "ani", "gev"][k % 5]
     if which == "ani":
         # the anisotropy scatter is the ONLY scatter acting on a kinematic lens: the reported kinematic prediction must
         # still be the average over the draws (as the likelihood marginalises over them)
@@ -98,6 +98,11 @@ def gen_scatter_case(rng, k):
     elif which == "mst":
         cfg["mst_ifu"] = False
         kl.update(lambda_mst_sigma=rng.uniform(0.02, 0.08), lambda_ifu_sigma=0.0)
+    elif which == "gev":
+        # a skewed line-of-sight population: mean != median, standard deviation != half the 68% interval
+        kl.update(lambda_mst_sigma=0.0, lambda_ifu_sigma=0.0)
+        cfg.update(global_los_distribution=0, los_distributions=["GEV"])
+        h["kwargs_los"] = [dict(mean=rng.uniform(-0.02, 0.04), sigma=rng.uniform(0.03, 0.05), xi=rng.choice([-0.25, -0.1, 0.2, 0.3]))]
     else:
         kl.update(lambda_mst_sigma=0.0, lambda_ifu_sigma=0.0)
         cfg.update(global_los_distribution=0, los_distributions=["GAUSSIAN"])
@@ -252,6 +257,12 @@ def c03_sigma(case):
     sig_k = 0.0
     if "global_los_distribution" in cfg:
         i = cfg["global_los_distribution"]
+        if cfg["los_distributions"][i] == "GEV":
+            # a skewed population: its MEAN and STANDARD DEVIATION (not median / percentiles) are the population moments
+            from scipy.stats import genextreme
+            d = h["kwargs_los"][i]
+            pop = genextreme(c=d["xi"], loc=d["mean"], scale=d["sigma"])
+            return lam, sig_l, float(pop.mean()), float(pop.std())
         if cfg["los_distributions"][i] != "GAUSSIAN":
             return None
         sig_k = h["kwargs_los"][i]["sigma"]
@@ -318,7 +329,7 @@ def run(ctx, res):
     per = ctx.n(12, 200)
     cases = [gen_case(rng, lt, True) for lt in TYPES for _ in range(per)]
     cases += [gen_case(rng, rng.choice(["DdtGaussian", "DdtGaussKin"]), False) for _ in range(ctx.n(4, 30))]
-    cases += [gen_scatter_case(rng, k) for k in range(ctx.n(9, 60))]
+    cases += [gen_scatter_case(rng, k) for k in range(ctx.n(10, 60))]
     lines, meta = [], []
     for case in cases:
         try:
